@@ -269,25 +269,49 @@ pub fn check_text_history(a_old: &str, a_new: &str, b_old: &str, b_new: &str) ->
         text_api_observation(&bo, &bn)
     })
     .map_err(|p| format!("panic: {}", p))?;
-    // one TextDiffConfig object used for A and then for B must behave like a fresh one for B
+    // one TextDiffConfig object used for A and then for B (held in the very buffers that held A,
+    // three constructors in a row on the same texts) must behave like a fresh one per call
     for &alg in ALGS.iter() {
-        let fresh = subject(|| {
-            let mut c = TextDiff::configure();
-            c.algorithm(alg).timeout(std::time::Duration::from_secs(3600));
-            (c.diff_lines(b_old, b_new).ops().to_vec(), c.diff_words(b_old, b_new).ops().to_vec())
+        type Obs = Vec<(Vec<DiffOp>, Vec<Vec<u8>>, Vec<Vec<u8>>)>;
+        fn obs<'a>(d: &TextDiff<'a, 'a, '_, str>) -> (Vec<DiffOp>, Vec<Vec<u8>>, Vec<Vec<u8>>) {
+            (
+                d.ops().to_vec(),
+                d.old_slices().iter().map(|t| t.as_bytes().to_vec()).collect(),
+                d.new_slices().iter().map(|t| t.as_bytes().to_vec()).collect(),
+            )
+        }
+        let fresh: Obs = subject(|| {
+            let cfg = || {
+                let mut c = TextDiff::configure();
+                c.algorithm(alg).timeout(std::time::Duration::from_secs(3600));
+                c
+            };
+            vec![
+                obs(&cfg().diff_lines(b_old, b_new)),
+                obs(&cfg().diff_words(b_old, b_new)),
+                obs(&cfg().diff_chars(b_old, b_new)),
+            ]
         })
         .map_err(|p| format!("panic: {}", p))?;
-        let reused = subject(|| {
+        let reused: Obs = subject(|| {
             let mut c = TextDiff::configure();
             c.algorithm(alg).timeout(std::time::Duration::from_secs(3600));
-            let _ = c.diff_lines(a_old, a_new).ops().len();
-            let _ = c.diff_chars(a_new, a_old).ops().len();
-            (c.diff_lines(b_old, b_new).ops().to_vec(), c.diff_words(b_old, b_new).ops().to_vec())
+            let mut bo = String::with_capacity(64);
+            let mut bn = String::with_capacity(64);
+            bo.push_str(a_old);
+            bn.push_str(a_new);
+            let _ = c.diff_lines(&bo, &bn).ops().len();
+            let _ = c.diff_chars(&bn, &bo).ops().len();
+            bo.clear();
+            bn.clear();
+            bo.push_str(b_old);
+            bn.push_str(b_new);
+            vec![obs(&c.diff_lines(&bo, &bn)), obs(&c.diff_words(&bo, &bn)), obs(&c.diff_chars(&bo, &bn))]
         })
         .map_err(|p| format!("panic: {}", p))?;
         if fresh != reused {
             return Err(format!(
-                "a TextDiffConfig ({}) already used for {:?}/{:?} gives {:?} for {:?}/{:?}; a fresh one gives {:?}",
+                "a TextDiffConfig ({}) already used for {:?}/{:?} gives (ops, old tokens, new tokens) {:?} for diff_lines / diff_words / diff_chars of {:?}/{:?} held in the same buffers; a fresh configuration per call gives {:?}",
                 alg_name(alg), a_old, a_new, reused, b_old, b_new, fresh
             ));
         }
